@@ -556,18 +556,18 @@ func checkEviction(c *Ctx) {
 	// are loaded without being in the LRU (a rebuild, a pull) must not make the loop evict down to nothing
 	{
 		bad, n := "", 0
-		for _, b := range fn.Blocks {
-			if len(b.Instrs) == 0 {
-				continue
+		var cmps []*ssa.BinOp
+		for _, f := range fnAndHelpers(fn, 1) {
+			for _, b := range f.Blocks {
+				for _, ins := range b.Instrs {
+					if bo, isBo := ins.(*ssa.BinOp); isBo && isCmpOp(bo.Op) {
+						cmps = append(cmps, bo)
+					}
+				}
 			}
-			iff, ok := b.Instrs[len(b.Instrs)-1].(*ssa.If)
-			if !ok {
-				continue
-			}
-			bo, isBo := iff.Cond.(*ssa.BinOp)
-			if !isBo {
-				continue
-			}
+		}
+		for _, bo := range cmps {
+			iff := bo
 			var other ssa.Value
 			if hasField(bo.X, "maxLoaded") {
 				other = bo.Y
